@@ -291,6 +291,12 @@ impl<'r> Gen<'r> {
             } else {
                 format!("s{}", tag)
             };
+            // now and then a user-chosen name that looks like the placeholder the printer shows for unnamed systems
+            if p.p_unnamed > 0 && self.rng.below(100) < 8 {
+                let k = (out.len() as u64 + self.rng.below(3)).saturating_sub(1);
+                let v = format!("unnamed_{}", k);
+                if !names.contains(&v) { name = v; }
+            }
             // now and then a name that differs from an earlier one only in a separator (' ', '-', '/', '_'): different names
             // although they print alike
             if p.p_weird_name > 0 && !names.is_empty() && self.rng.below(100) < 12 {
@@ -313,8 +319,10 @@ impl<'r> Gen<'r> {
             }
             if p.malformed && self.rng.below(100) < 6 {
                 let pos = self.rng.below(deps.len() as u64 + 1) as usize;
-                let bad = match self.rng.below(4) {
+                let bad = match self.rng.below(5) {
                     0 => String::new(), 1 => format!("nope{}", tag), 2 => format!("s{}", tag + 1000),
+                    // the placeholder of an (unnamed) system is not a name
+                    3 => { let v = format!("unnamed_{}", self.rng.below(out.len() as u64 + 1)); if names.contains(&v) { format!("nope{}", tag) } else { v } }
                     // a registered name with one separator exchanged (not registered itself)
                     _ => names.iter().rev().find_map(|n| sep_variant(n, tag as u64)).filter(|v| !names.contains(v)).unwrap_or_else(|| format!("nope{}", tag)),
                 };
